@@ -784,10 +784,13 @@ package larking
 //@   assert atcall `bytes.NewReader(` [the-whole-frame-is-decompressed C08 C06] same(arg0, b)
 //@   assert atcall `s.comp.Decompress(` [the-frame-reader-is-what-is-decompressed C08 C06] pay(arg0) == src
 //@   assert atcall `dst.ReadFrom(` [everything-the-decompressor-yields-is-kept C08 C06] arg1 == r && arg0 == dst
-//@ func (*streamGRPC).compress serves C08 C06 C04 trusted partial ghost
+//@ func (*streamGRPC).compress serves C08 C06 C04 trusted partial ghost count post
 //@   requires s != nil && s.comp != nil
 //@   modifies G$buf.
 //@   assert atcall `s.comp.Compress(` [the-reply-is-compressed-into-the-callers-buffer C06 C04] pay(arg0) == dst
+//@   count closes `w.Close(`
+//@   count dcloses `defer w.Close(`
+//@   ensures [the-pooled-compressing-writer-is-closed-once C13] at every return closes + dcloses <= 1
 //@   assert atcall `w.Write(` [the-whole-reply-is-compressed C06 C04] same(arg0, b)
 // (contract assumed at call sites; the body is checked for nil dereferences:
 // the stats block must not change what a request does, C18)
@@ -1109,6 +1112,7 @@ package larking
 // stripped from a key only after the key itself was found not to be a header that
 // was already sent - a trailer may share its name with a sent header, C14)
 //@ func (*webWriter).writeTrailer serves C14 trusted partial ghost nil pre
+//@   assert atcall `tr.Write(` [the-trailer-block-is-built-in-an-empty-buffer C13 C14] buflen(pay(arg1)) == 0
 //@   requires w != nil
 //@   modifies F$webWriter.wroteHeader, F$webWriter.seenHeaders, G$wr.
 //@   assert atcall `strings.TrimPrefix(` [prefix-stripped-only-after-the-sent-header-check C14] w.seenHeaders == nil || !(maphas(w.seenHeaders, key) && mapval(w.seenHeaders, key))
